@@ -1,5 +1,6 @@
 use crate::report::Args;
 
+pub mod c13;
 pub mod c16;
 pub mod c17;
 pub mod mux;
@@ -9,6 +10,7 @@ pub fn run(args: &Args) -> i32 {
         "C16" => c16::run(args),
         "C01" | "C02" | "C14" => mux::run(args),
         "C17" => c17::run(args),
+        "C13" => c13::run(args),
         other => {
             eprintln!("unknown property {}", other);
             2
